@@ -393,7 +393,7 @@ def check_marks(ctx, facts):
                 n_read += 1
                 judge_mark(ctx, b, s, s.node["args"][0], caller, idem, facts=facts)
             elif caller == "walrus::Walrus::startup_chore":
-                asrc, _, _ = origins(b, s.node["args"][0], passthrough_extra=[r"slice::(get|first|last|get_unchecked)$", r"::take$", r"::skip$", r"::rev$"])
+                asrc, _, _ = origins(b, s.node["args"][0], passthrough_extra=[r"slice::(get|first|last|get_unchecked)$", r"::take$", r"::skip$", r"::rev$", r"::filter$"])
                 from_chain = any(o.kind == "field" and o.what[1] == "chain" for o in asrc) and any(o.kind == "field" and o.what[1] == "id" for o in asrc)
                 # dominated by the Some edge of WalIndex::get
                 have_pos = False
